@@ -94,6 +94,26 @@ def scenarios(tier):
                     kinds='F' if reps == 1 else '', horizon=900,
                     features={'mode': mode, 'role': role, 'history': name, 'repetitions': reps, 'conn_pool': True},
                     setup=_setup))
+    # the shipped ProxyPoolPlugin opens its own upstream connection (to a pool endpoint) from before_upstream_connection
+    for mode in ('local', 'remote'):
+        netmc.install()
+        from proxy.plugin import ProxyPoolPlugin
+        req = b'GET http://pub.test/x HTTP/1.1\r\nHost: pub.test\r\n\r\n'
+        pool_ok = {('10.0.0.5', 3128): lambda: HttpOrigin([[c05.R_A]])}
+        for name, script, origins, net in (
+                ('pool-endpoint-serves', [('send', req), ('wait_recv', len(c05.R_A)), ('close',)], pool_ok, {}),
+                ('pool-endpoint-refuses', [('send', req), ('wait_eof',)], {}, {}),
+                ('pool-endpoint-times-out', [('send', req), ('wait_eof',)], {}, {('10.0.0.5', 3128): 'timeout'}),
+                ('pool-endpoint-closes-early', [('send', req), ('wait_eof',)],
+                 {('10.0.0.5', 3128): lambda: netmc.RawOrigin(greeting=[], finally_='close')}, {}),
+                ('pool-client-aborts', [('send', req), ('close',)], pool_ok, {})):
+            for reps in (1, 3):
+                clients = [dict(script=script, start_turn=(0 if i == 0 else 'idle')) for i in range(reps)]
+                out.append(Scenario(
+                    '%s/proxypool/%s/x%d' % (mode, name, reps), ['--threadless', '--proxy-pool', '10.0.0.5:3128'],
+                    flags_opts={'plugins': [ProxyPoolPlugin]}, mode=mode, clients=clients, origins=origins,
+                    dns={'pub.test': '93.184.216.34'}, net=net, kinds='AF' if reps == 1 else '', horizon=900,
+                    features={'mode': mode, 'role': 'proxy_pool', 'history': name, 'repetitions': reps}, setup=_setup))
     # work initialisation failure (TLS front, client botches the handshake): nothing may stay behind
     for sc in c05.tls_front_scenarios(tier):
         sc.setup = _setup
